@@ -97,6 +97,19 @@ func (d *Driver) Running() bool {
 	return d.running
 }
 
+// GuardianSetTick fires the watcher's 15 s guardian-set ticker (one fetch round).
+func (d *Driver) GuardianSetTick() bool {
+	n := 0
+	for _, w := range vtime.Find("ticker", "ethereum") {
+		if w.Period == 15*time.Second {
+			w.Fire()
+			n++
+		}
+	}
+	d.Quiesce()
+	return n > 0
+}
+
 // Poll fires the block poller's timer (one polling round).
 func (d *Driver) Poll() bool {
 	var ws []*vtime.Waiter
